@@ -12,8 +12,10 @@ from pyrtl.rtllib import aes, prngs
 sys.path.insert(0, os.path.dirname(os.path.dirname(os.path.abspath(__file__))))
 import genfrag_C18  # noqa: E402
 
-RULE = ('AES: one netlist per circuit (encryption+decryption+every sub-function; encrypt_state_m; '
-        'decryption_statem) built once per run and fed FIPS-197 Appendix B/C.1 vectors, edge blocks and '
+RULE = ('AES: two designs per run, each built by ONE shared AES() object whose units have SEPARATE key Inputs driven '
+        'by different keys (design 1, build order shuffled by seed: encryption(k1) + decryption(k2) + every sub-function + '
+        'a bare _key_gen(kg) + encrypt_state_m(ks); design 2: _key_gen(kgA), decryption_statem(ks), _key_gen(kgB)); every '
+        'unit is compared with FIPS-197 under ITS OWN key; fed FIPS-197 Appendix B/C.1 vectors, edge blocks and '
         'seeded random 128-bit key/block pairs on successive cycles (state machines: reset pulses with '
         'bogus data in between, early re-resets, random reset schedules); PRNGs: seeds x bitwidth in '
         '{1,7,63,64,65,127,128,129,200,256} x bits_per_cycle in {1,2,4,8,16,32,64} (3 and 17 must be '
@@ -325,99 +327,63 @@ def check_tables(ctx):
                 {'table': t, 'index': bad_used[0], 'expected': e[bad_used[0]]})
 
 
-def build_aes_comb():
+KG_SPEC = ('(m_key_list %#x, map (fun r => of_bytes_be (round_key (KeyExpansion (bytes_be %#x)) r)) (seq 0 11))')
+
+
+def build_shared(which, order):
+    """ONE AES() object builds every unit of the design, each unit with its OWN key Input, in the
+    given build order (any state cached on the object by one unit is visible to the next):
+      'enc' design: encryption(x, k1), decryption(x, k2), the sub-functions on x, a bare _key_gen(kg)
+                    unit and encrypt_state_m(xs, ks, reset);
+      'dec' design: _key_gen(kgA), decryption_statem(xs, ks, reset), _key_gen(kgB).
+    (encrypt_state_m and decryption_statem cannot share a block: both name a register 'counter'.)"""
     pyrtl.reset_working_block()
     a = aes.AES()
-    x = pyrtl.Input(128, 'x')
-    k = pyrtl.Input(128, 'k')
-    outs = {'enc': a.encryption(x, k), 'dec': a.decryption(x, k),
-            'p0': a._sub_bytes(x), 'p1': a._sub_bytes(x, True), 'p2': a._shift_rows(x),
-            'p3': a._inv_shift_rows(x), 'p4': a._mix_columns(x), 'p5': a._mix_columns(x, True)}
-    for r in range(10):
-        outs['p%d' % (6 + r)] = a._key_expansion(x, r)
-    names = sorted(outs)
-    for n in names:
-        o = pyrtl.Output(128, 'o_' + n)
+    outs = {}
+    x = pyrtl.Input(128, 'x') if which == 'enc' else None
+    xs, ks, reset = pyrtl.Input(128, 'xs'), pyrtl.Input(128, 'ks'), pyrtl.Input(1, 'reset')
+
+    def keygen_unit(name):
+        outs[name] = pyrtl.concat_list(a._key_gen(pyrtl.Input(128, name)))
+
+    def unit(u):
+        if u == 'enc':
+            outs['enc'] = a.encryption(x, pyrtl.Input(128, 'k1'))
+        elif u == 'dec':
+            outs['dec'] = a.decryption(x, pyrtl.Input(128, 'k2'))
+        elif u == 'parts':
+            parts = [a._sub_bytes(x), a._sub_bytes(x, True), a._shift_rows(x), a._inv_shift_rows(x),
+                     a._mix_columns(x), a._mix_columns(x, True)] + [a._key_expansion(x, r) for r in range(10)]
+            for j, w in enumerate(parts):
+                outs['p%d' % j] = w
+        elif u == 'sm':
+            r, o = (a.encrypt_state_m if which == 'enc' else a.decryption_statem)(xs, ks, reset)
+            outs['ready'], outs['out'] = r, o
+        else:
+            keygen_unit(u)
+    for u in order:
+        unit(u)
+    for n in sorted(outs):
+        o = pyrtl.Output(len(outs[n]), 'o_' + n)
         o <<= outs[n]
     blk = pyrtl.working_block()
-    sim = pyrtl.FastSimulation(block=blk, tracer=pyrtl.SimulationTrace(wires_to_track=list(blk.wirevector_subset(pyrtl.Output)), block=blk))
-    return sim
+    return pyrtl.FastSimulation(block=blk, tracer=pyrtl.SimulationTrace(
+        wires_to_track=list(blk.wirevector_subset(pyrtl.Output)), block=blk))
 
 
-def build_aes_sm(which):
-    pyrtl.reset_working_block()
-    a = aes.AES()
-    x = pyrtl.Input(128, 'x')
-    k = pyrtl.Input(128, 'k')
-    reset = pyrtl.Input(1, 'reset')
-    ready = pyrtl.Output(1, 'ready')
-    out = pyrtl.Output(128, 'out')
-    r, o = (a.encrypt_state_m if which == 'enc' else a.decryption_statem)(x, k, reset)
-    ready <<= r
-    out <<= o
-    blk = pyrtl.working_block()
-    return pyrtl.FastSimulation(block=blk, tracer=pyrtl.SimulationTrace(wires_to_track=[ready, out], block=blk))
-
-
-def aes_pairs(ctx):
+def aes_triples(ctx):
+    """forward stimuli (k1 for encryption, k2 for decryption, block): the two keys differ"""
     n = 20 if ctx.tier == 'quick' else 300
     rng = ctx.sub_rng('aes-pairs')
-    pairs = [(k, p) for k, p, c in FIPS] + [(k, c) for k, p, c in FIPS]
-    pairs += [(0, M128), (M128, 0), (M128, M128), (1, 1 << 127), (1 << 127, 1)]
-    pairs += [(rng.getrandbits(128), rng.getrandbits(128)) for _ in range(n)]
-    return pairs
-
-
-def check_aes_comb(ctx):
-    pairs = aes_pairs(ctx)
-    sim = build_aes_comb()
-    rows = []
-    for (k, b) in pairs:
-        sim.step({'x': b, 'k': k})
-        rows.append({n[2:]: sim.tracer.trace[n][-1] for n in sim.tracer.trace if n.startswith('o_')})
-    # feed each ciphertext back: decryption(encryption(x)) on the real circuit
-    back = []
-    for (k, b), row in zip(pairs, rows):
-        sim.step({'x': row['enc'], 'k': k})
-        back.append(sim.tracer.trace['o_dec'][-1])
-    shard = 4 if ctx.tier == 'quick' else 10
-    res = ctx.coq_eval(['aes_case (%#x, %#x)' % kb for kb in pairs], IMPORTS, tag='aes', shard=shard, jobs=10)
-    npart = 12 if ctx.tier == 'quick' else 60
-    parts = ctx.coq_eval(['aes_parts %#x' % b for (k, b) in pairs[:npart]], IMPORTS, tag='aesparts', shard=20, jobs=6)
-    for i, ((k, b), row, bk, r) in enumerate(zip(pairs, rows, back, res)):
-        m_enc, m_dec, s_enc, s_dec = r
-        rep = {'key': hex(k), 'block': hex(b)}
-        ctx.case(('aes', k, b), nontrivial=True,
-                 sample={'key': hex(k), 'block': hex(b), 'ciphertext': hex(row['enc'])} if i in (1, 20) else None)
-        ctx.count('aes', 'fips-vector' if i < 2 * len(FIPS) else ('edge' if i < 2 * len(FIPS) + 5 else 'random'))
-        e_ref, d_ref = ref_aes_enc(k, b), ref_aes_dec(k, b)
-        if not (s_enc == e_ref and s_dec == d_ref):
-            ctx.model_mismatch('Lib/AesSpec.v and the Python FIPS-197 reference disagree', rep)
-        if row['enc'] != e_ref or row['enc'] != s_enc:
-            ctx.spec_violation('aes:encryption', 'AES.encryption(%#x, key=%#x) = %#x, FIPS-197 Cipher gives %#x' % (
-                b, k, row['enc'], e_ref), dict(rep, expected=hex(e_ref), got=hex(row['enc'])))
-        if row['dec'] != d_ref or row['dec'] != s_dec:
-            ctx.spec_violation('aes:decryption', 'AES.decryption(%#x, key=%#x) = %#x, FIPS-197 InvCipher gives %#x' % (
-                b, k, row['dec'], d_ref), dict(rep, expected=hex(d_ref), got=hex(row['dec'])))
-        if bk != b:
-            ctx.spec_violation('aes:decrypt-inverts', 'decryption(encryption(x)) = %#x != x = %#x (key %#x)' % (bk, b, k),
-                               dict(rep, got=hex(bk)))
-        if row['enc'] != m_enc or row['dec'] != m_dec:
-            ctx.model_mismatch('AES circuit and Lib/AesModel.v disagree (encryption/decryption)', rep)
-        if i < npart:
-            got = [row['p%d' % j] for j in range(16)]
-            if got != parts[i]:
-                j = [a != c for a, c in zip(got, parts[i])].index(True)
-                ctx.model_mismatch('AES sub-circuit #%d (sub,inv_sub,shift,inv_shift,mix,inv_mix,key_expansion r) '
-                                   'and Lib/AesModel.v disagree' % j, rep)
-    for i, (k, p, c) in enumerate(FIPS):
-        if rows[i]['enc'] != c:
-            ctx.spec_violation('aes:fips-vector', 'FIPS-197 vector %d: got %#x expected %#x' % (i, rows[i]['enc'], c),
-                               {'key': hex(k), 'block': hex(p), 'expected': hex(c)})
+    r = lambda: rng.getrandbits(128)  # noqa: E731
+    tr = [(k, r(), p) for k, p, c in FIPS] + [(r(), k, c) for k, p, c in FIPS]
+    tr += [(0, M128, M128), (M128, 0, 0), (1, 1 << 127, 1 << 127), (1 << 127, 1, 1), (M128, M128, M128)]
+    tr += [(r(), r(), r()) for _ in range(n)]
+    return tr
 
 
 def sm_schedules(ctx, which):
-    """list of (name, [(reset, x, k)...])"""
+    """[(reset, x, k)...]"""
     rng = ctx.sub_rng('aes-sm', which)
     n = 6 if ctx.tier == 'quick' else 60
     pairs = [(k, p if which == 'enc' else c) for k, p, c in FIPS[:2]]
@@ -434,16 +400,27 @@ def sm_schedules(ctx, which):
     return sched
 
 
-def check_aes_sm(ctx, which):
-    sched = sm_schedules(ctx, which)
-    sim = build_aes_sm(which)
-    trace = []
-    for (r, x, k) in sched:
-        sim.step({'reset': r, 'x': x, 'k': k})
-        trace.append([sim.tracer.trace['ready'][-1], sim.tracer.trace['out'][-1]])
-    chunk = 40
-    # the model is a state machine: evaluate whole prefix-free chunks by re-running from the start would be
-    # quadratic; instead evaluate the full trace once per shard of independent expressions = one expression
+def check_keygen(ctx, unit, keys, outs, ncoq):
+    """a bare _key_gen(k) unit: concat_list of the 11 round keys vs FIPS-197 KeyExpansion under ITS key"""
+    got_all = [[(o >> (128 * r)) & M128 for r in range(11)] for o in outs]
+    res = ctx.coq_eval([KG_SPEC % (k, k) for k in keys[:ncoq]], IMPORTS, tag='aeskg' + unit, shard=4, jobs=6)
+    for i, (k, got) in enumerate(zip(keys, got_all)):
+        want = [_from_bytes(rk) for rk in _expand(_to_bytes(k))]
+        ctx.case(('aes-keygen', unit, k), nontrivial=True)
+        if got != want:
+            r = [g != w for g, w in zip(got, want)].index(True)
+            ctx.spec_violation('aes:key-schedule', 'AES._key_gen(%#x) (unit %s of a shared AES object): round key %d is %#x, '
+                               'FIPS-197 KeyExpansion gives %#x' % (k, unit, r, got[r], want[r]), {'key': hex(k), 'unit': unit})
+        if i < ncoq:
+            m, sp = res[i]
+            if sp != want:
+                ctx.model_mismatch('Lib/AesSpec.v KeyExpansion and the Python reference disagree', {'key': hex(k)})
+            if got != m:
+                ctx.model_mismatch('AES._key_gen circuit and Lib/AesModel.v m_key_list disagree', {'key': hex(k)})
+    ctx.count('aes', 'keygen-unit-cycles', len(keys))
+
+
+def analyse_sm(ctx, which, sched, trace):
     fn = 'enc_sm_sum' if which == 'enc' else 'dec_sm_sum'
     model = ctx.coq_eval(['%s %s' % (fn, triples(sched))], IMPORTS, tag='aessm' + which, shard=1, jobs=1)[0]
     if model != summary(trace):
@@ -455,7 +432,8 @@ def check_aes_sm(ctx, which):
     last = None
     nready = 0
     for t, ((r, x, k), got) in enumerate(zip(sched, trace)):
-        rep = {'circuit': which, 'cycle': t, 'schedule_prefix': [[a, hex(b), hex(c)] for a, b, c in sched[max(0, t - 14):t + 1]]}
+        rep = {'circuit': which, 'cycle': t, 'shared_AES_object': True,
+               'schedule_prefix': [[a, hex(b), hex(c)] for a, b, c in sched[max(0, t - 14):t + 1]]}
         if last is not None:
             age = t - last[0]
             want_ready = 1 if age >= 11 else 0
@@ -478,6 +456,102 @@ def check_aes_sm(ctx, which):
         if s[0]:
             ctx.case(('aes-sm', which, t, s[1], s[2]), nontrivial=True,
                      sample={'circuit': which + '_state_machine', 'reset_cycle': t, 'block': hex(s[1]), 'key': hex(s[2])} if t < 20 else None)
+
+
+def check_aes_enc_design(ctx):
+    """single AES() object: encryption(k1) + decryption(k2) + sub-functions + _key_gen(kg) + encrypt_state_m(ks)"""
+    rng = ctx.sub_rng('aes-enc-design')
+    order = ['enc', 'dec', 'parts', 'kg', 'sm']
+    rng.shuffle(order)
+    ctx.count('aes-build-order', '>'.join(order))
+    fwd = aes_triples(ctx)
+    n = len(fwd)
+    sched = sm_schedules(ctx, 'enc')
+    N = max(2 * n, len(sched))
+    sched = sched + [(0, rng.getrandbits(128), rng.getrandbits(128)) for _ in range(N - len(sched))]
+    sim = build_shared('enc', order)
+    tr = sim.tracer.trace
+    comb, rows, kgs, kgout, smtrace = [], [], [], [], []
+    for t in range(N):
+        if t < n:
+            k1, k2, b = fwd[t]
+        elif t < 2 * n:       # feed the ciphertext back under the encryption key; encryption gets a fresh key
+            k1, k2, b = rng.getrandbits(128), fwd[t - n][0], rows[t - n]['enc']
+        else:
+            k1, k2, b = rng.getrandbits(128), rng.getrandbits(128), rng.getrandbits(128)
+        kg = rng.getrandbits(128)
+        r, xs, ks = sched[t]
+        sim.step({'x': b, 'k1': k1, 'k2': k2, 'kg': kg, 'xs': xs, 'ks': ks, 'reset': r})
+        comb.append((k1, k2, b))
+        rows.append({nm[2:]: tr[nm][-1] for nm in tr if nm.startswith('o_')})
+        kgs.append(kg)
+        kgout.append(rows[-1]['kg'])
+        smtrace.append([rows[-1]['ready'], rows[-1]['out']])
+    shard = 4 if ctx.tier == 'quick' else 10
+    res = ctx.coq_eval(['[m_encryption %#x %#x; m_decryption %#x %#x; CipherZ %#x %#x; InvCipherZ %#x %#x]' % (
+        k1, b, k2, b, k1, b, k2, b) for (k1, k2, b) in fwd], IMPORTS, tag='aes', shard=shard, jobs=10)
+    npart = 12 if ctx.tier == 'quick' else 60
+    parts = ctx.coq_eval(['aes_parts %#x' % b for (k1, k2, b) in fwd[:npart]], IMPORTS, tag='aesparts', shard=20, jobs=6)
+    for t, ((k1, k2, b), row) in enumerate(zip(comb, rows)):
+        rep = {'enc_key': hex(k1), 'dec_key': hex(k2), 'block': hex(b), 'cycle': t, 'build_order': order,
+               'shared_AES_object': True}
+        e_ref, d_ref = ref_aes_enc(k1, b), ref_aes_dec(k2, b)
+        if t < n:
+            ctx.case(('aes', k1, k2, b), nontrivial=True,
+                     sample={'enc_key': hex(k1), 'dec_key': hex(k2), 'block': hex(b), 'ciphertext': hex(row['enc']),
+                             'build_order': order} if t in (1, 20) else None)
+            ctx.count('aes', 'fips-vector' if t < 2 * len(FIPS) else ('edge' if t < 2 * len(FIPS) + 5 else 'random'))
+            m_enc, m_dec, s_enc, s_dec = res[t]
+            if not (s_enc == e_ref and s_dec == d_ref):
+                ctx.model_mismatch('Lib/AesSpec.v and the Python FIPS-197 reference disagree', rep)
+            if row['enc'] != m_enc or row['dec'] != m_dec:
+                ctx.model_mismatch('AES circuit and Lib/AesModel.v disagree (encryption/decryption)', rep)
+            if t < npart:
+                got = [row['p%d' % j] for j in range(16)]
+                if got != parts[t]:
+                    j = [a != c for a, c in zip(got, parts[t])].index(True)
+                    ctx.model_mismatch('AES sub-circuit #%d (sub,inv_sub,shift,inv_shift,mix,inv_mix,key_expansion r) '
+                                       'and Lib/AesModel.v disagree' % j, rep)
+        else:
+            ctx.count('aes', 'feedback' if t < 2 * n else 'extra-random')
+        if row['enc'] != e_ref:
+            ctx.spec_violation('aes:encryption', 'AES.encryption(%#x, key=%#x) = %#x, FIPS-197 Cipher gives %#x' % (
+                b, k1, row['enc'], e_ref), dict(rep, expected=hex(e_ref), got=hex(row['enc'])))
+        if row['dec'] != d_ref:
+            ctx.spec_violation('aes:decryption', 'AES.decryption(%#x, key=%#x) = %#x, FIPS-197 InvCipher gives %#x '
+                               '(encryption in the same design uses key %#x)' % (b, k2, row['dec'], d_ref, k1),
+                               dict(rep, expected=hex(d_ref), got=hex(row['dec'])))
+        if n <= t < 2 * n and row['dec'] != fwd[t - n][2]:
+            ctx.spec_violation('aes:decrypt-inverts', 'decryption(encryption(x)) = %#x != x = %#x (key %#x)' % (
+                row['dec'], fwd[t - n][2], k2), dict(rep, got=hex(row['dec'])))
+    for i, (k, p, c) in enumerate(FIPS):
+        if rows[i]['enc'] != c:
+            ctx.spec_violation('aes:fips-vector', 'FIPS-197 vector %d: got %#x expected %#x' % (i, rows[i]['enc'], c),
+                               {'key': hex(k), 'block': hex(p), 'expected': hex(c)})
+    check_keygen(ctx, 'kg', kgs, kgout, 4 if ctx.tier == 'quick' else 24)
+    analyse_sm(ctx, 'enc', sched, smtrace)
+
+
+def check_aes_dec_design(ctx):
+    """single AES() object: _key_gen(kgA), then decryption_statem(ks), then _key_gen(kgB)"""
+    rng = ctx.sub_rng('aes-dec-design')
+    order = ['kgA', 'sm', 'kgB']
+    ctx.count('aes-build-order', '>'.join(order))
+    sched = sm_schedules(ctx, 'dec')
+    sim = build_shared('dec', order)
+    tr = sim.tracer.trace
+    ka, kb, oa, ob, smtrace = [], [], [], [], []
+    for (r, xs, ks) in sched:
+        a, b = rng.getrandbits(128), rng.getrandbits(128)
+        sim.step({'kgA': a, 'kgB': b, 'xs': xs, 'ks': ks, 'reset': r})
+        ka.append(a)
+        kb.append(b)
+        oa.append(tr['o_kgA'][-1])
+        ob.append(tr['o_kgB'][-1])
+        smtrace.append([tr['o_ready'][-1], tr['o_out'][-1]])
+    check_keygen(ctx, 'kgA', ka, oa, 2)
+    check_keygen(ctx, 'kgB', kb, ob, 2)
+    analyse_sm(ctx, 'dec', sched, smtrace)
 
 
 # --------------------------------------------------------------------------------------------
@@ -669,8 +743,8 @@ def check_prngs(ctx):
 
 def run(ctx):
     import time
-    for name, f in (('tables', lambda: check_tables(ctx)), ('aes-comb', lambda: check_aes_comb(ctx)),
-                    ('aes-sm-enc', lambda: check_aes_sm(ctx, 'enc')), ('aes-sm-dec', lambda: check_aes_sm(ctx, 'dec')),
+    for name, f in (('tables', lambda: check_tables(ctx)), ('aes-enc-design', lambda: check_aes_enc_design(ctx)),
+                    ('aes-dec-design', lambda: check_aes_dec_design(ctx)),
                     ('prngs', lambda: check_prngs(ctx))):
         t0 = time.time()
         f()
